@@ -126,7 +126,10 @@ def chain_rules(run, db):
         if len(rf) != 1 or not rb:
             raise AnalysisError('to_fpm_and_back(_backprop): paths %d/%d' % (len(rf), len(rb)))
         F2 = rf[0].value
-        F1 = [x for x in F2.arr.origin[1:3] if isinstance(x, Prod2)][0]
+        inner_f = [x for x in (getattr(getattr(F2, 'arr', None), 'origin', None) or ())[1:3] if isinstance(x, Prod2)] if isinstance(F2, Prod2) else []
+        if not inner_f:
+            raise AnalysisError('to_fpm_and_back does not end in a matrix product of a masked matrix product: %r' % (F2,))
+        F1 = inner_f[0]
         for p in rb:
             cplx = [t for c, t in p.conds if 'iscomplexobj' in c]
             v = _unwrap_scale(run, 'C06.scalar', fb, p.value, 'to_fpm_and_back_backprop result')
@@ -975,6 +978,10 @@ def check(run, db, tier):
     run.forgive('fd_adjoint_value_rules', ['fd_rules'])
     run.defer('fd_rules', 'fd_adjoint_value_rules', n_fd)
     run.group(dm_resize_value_rules, run, db)
+    from .c06values import modal_sum_value_rules
+    n_ms = run.group(modal_sum_value_rules, run, db)
+    run.forgive('modal_sum_value_rules', ['sum_rules'])
+    run.defer('sum_rules', 'modal_sum_value_rules', n_ms, [('C06.sum', 2)])
     run.forgive('dm_resize_value_rules', ['dm_rules'])
     run.require_instances('C06.matrix', 20)
     run.require_instances('C06.fixed', 16)
